@@ -7,6 +7,7 @@ records the sampled inputs that were actually simulated."""
 from __future__ import annotations
 
 import ast
+import re
 from typing import Dict, List, Optional, Tuple
 
 from gxstat.flowutil import guards_of
@@ -338,6 +339,89 @@ def check_q7(ctx) -> None:
                   f'rows and statistics over the mixture', fact='derived from a per-request unique temporary location')
 
 
+def _unpicklable_exception(cls_node: ast.ClassDef) -> Optional[str]:
+    """A class deriving from an exception type whose __init__ takes more required arguments than it passes to super().__init__:
+    BaseException pickles as (type, self.args), so the parent process re-creates it with fewer arguments than __init__ needs and
+    fails - which breaks the whole process pool, not just the iteration that raised."""
+    if not any((dotted_name(b) or '').split('.')[-1].endswith(('Error', 'Exception')) for b in cls_node.bases):
+        return None
+    if any(isinstance(n, ast.FunctionDef) and n.name in ('__reduce__', '__reduce_ex__', '__getnewargs__', '__getnewargs_ex__') for n in cls_node.body):
+        return None
+    init = next((n for n in cls_node.body if isinstance(n, ast.FunctionDef) and n.name == '__init__'), None)
+    if init is None:
+        return None
+    nreq = len(init.args.args) - 1 - len(init.args.defaults)
+    if init.args.vararg is not None:
+        return None
+    sup = [c for c in ast.walk(init) if isinstance(c, ast.Call) and isinstance(c.func, ast.Attribute) and c.func.attr == '__init__']
+    passed = max((len(c.args) for c in sup), default=0)
+    if any(any(isinstance(a, ast.Starred) for a in c.args) for c in sup):
+        return None
+    if nreq > passed:
+        return f'__init__ needs {nreq} argument(s) but hands {passed} to the base exception (pickled args)'
+    return None
+
+
+def check_worker_failure_isolation(ctx) -> None:
+    """Q8: "an iteration that fails affects only its own row".  (a) exception classes of the repository must survive pickling back to
+    the parent (else one failing iteration breaks the pool and drops every pending iteration); (b) a self-check keeps the rule armed."""
+    repo = ctx.repo
+    n = 0
+    mods = {f.module.rel: f.module for f in repo.all_functions()}
+    for rel, mi in sorted(mods.items()):
+        for node in ast.walk(mi.tree):
+            if isinstance(node, ast.ClassDef) and any((dotted_name(b) or '').split('.')[-1].endswith(('Error', 'Exception')) for b in node.bases):
+                n += 1
+                why = _unpicklable_exception(node)
+                ctx.check(why is None, 'Q8', f'{node.name}/exception-survives-pickling', f'{rel}:{node.lineno}',
+                          f'exception class {node.name}: {why}; raised inside a Monte-Carlo worker it cannot be re-created in the parent process, '
+                          f'the process pool is marked broken and all running and pending iterations are lost', fact='default-compatible constructor')
+    # the rule matches nothing on a tree without own exception classes: keep it armed with a positive and a negative example
+    pos = ast.parse("class E(RuntimeError):\n    def __init__(self, msg, extra):\n        super().__init__(msg)\n        self.extra = extra\n").body[0]
+    neg = ast.parse("class E(RuntimeError):\n    def __init__(self, msg, extra=None):\n        super().__init__(msg)\n").body[0]
+    ctx.require(_unpicklable_exception(pos) is not None and _unpicklable_exception(neg) is None, 'Q8 self-check failed (rule predicate broken)')
+    ctx.ok('Q8', 'exception-classes/survive-pickling', 'src/', f'{n} exception classes defined in the repository; predicate self-check passed')
+
+
+def check_no_digit_grouping(ctx) -> None:
+    """Q9: the driver copies the token after a report label verbatim into its comma-separated row (and the client reads the first
+    blank-separated token).  A format spec with a thousands separator (`,` or `_`) splits one value into two fields as soon as it
+    reaches 1000: every later column of the row shifts under the wrong header."""
+    repo = ctx.repo
+    n = 0
+    # the driver may instead normalise the token it copies: `<token>.replace(',', '')` before it is appended to the row
+    w = repo.function(MC, 'work_package')
+    strips = any(isinstance(c, ast.Call) and isinstance(c.func, ast.Attribute) and c.func.attr == 'replace' and len(c.args) == 2 and
+                 isinstance(c.args[0], ast.Constant) and c.args[0].value == ',' and isinstance(c.args[1], ast.Constant) and c.args[1].value == ''
+                 and any(isinstance(x, ast.Name) and x.id.startswith('s') for x in ast.walk(c.func.value))
+                 for st in ast.walk(w.node) if isinstance(st, ast.Assign) for c in ast.walk(st.value))
+    ctx.analysed['driver_strips_thousands_separators'] = strips
+    for f in repo.all_functions():
+        if f.name not in ('PrintOutputs', 'print_outputs_rich') and not (f.cls is not None and f.cls.name.endswith('Outputs')):
+            if not f.module.rel.endswith(('hip_ra_x.py', 'HIP_RA.py')):
+                continue
+        specs = []
+        for x in ast.walk(f.node):
+            if isinstance(x, ast.FormattedValue) and x.format_spec is not None:
+                specs.append((norm(x.format_spec).strip("f'\""), x))
+            if isinstance(x, ast.Call) and isinstance(x.func, ast.Attribute) and x.func.attr == 'format' and isinstance(x.func.value, ast.Constant) \
+                    and isinstance(x.func.value.value, str):
+                for m in re.finditer(r'\{[^{}:]*:([^{}]*)\}', x.func.value.value):
+                    specs.append((m.group(1), x))
+        if not specs:
+            continue
+        n += len(specs)
+        bad = [(sp, x) for sp, x in specs if re.search(r'^[^a-zA-Z%]*[,_]', sp)]
+        if bad and strips and all(',' in sp and '_' not in sp.split('.')[0] for sp, _ in bad):
+            ctx.ok('Q9', f'{f.qualname}/no-digit-grouping-in-numbers', f'{f.module.rel}:{bad[0][1].lineno}',
+                   f'{len(bad)} spec(s) group digits with a comma; the driver strips commas from the token it copies')
+            continue
+        ctx.check(not bad, 'Q9', f'{f.qualname}/no-digit-grouping-in-numbers', f'{f.module.rel}:{bad[0][1].lineno if bad else f.node.lineno}',
+                  f'format spec `{bad[0][0] if bad else ""}` prints a thousands separator: a value of 1000 or more becomes two comma-separated '
+                  f'fields in the Monte-Carlo row (and two tokens for the client), shifting every later column', fact=f'{len(specs)} format specs, none groups digits')
+    ctx.floor('Q9', n, 300, 'numeric format specs in the report writers')
+
+
 def run(ctx) -> None:
     ctx.rule('Q6', 'each iteration is its own pool task (no chunking), so a failing iteration affects only its own row')
     ctx.rule('Q1', 'each requested output contributes exactly one token to the row on every path; header and row iterate the '
@@ -351,6 +435,14 @@ def run(ctx) -> None:
     ctx.rule('Q7', 'the default result file of a request is unique to it (rows of different runs never share a file by default)')
     check_q1(ctx)
     check_q7(ctx)
+    ctx.rule('Q8', 'exception classes defined in the repository survive pickling from a worker to the parent (a failing iteration does not break the pool)')
+    ctx.rule('Q9', 'a thousands separator never reaches the comma-separated row: no writer groups digits, or the driver strips the commas from the token it copies')
+    ctx.rule('Q10', 'client wrappers restore process-wide state (cwd, argv, stdout) in a finally: a failing iteration leaves the worker usable (C08 P1)')
+    check_worker_failure_isolation(ctx)
+    check_no_digit_grouping(ctx)
+    from gxstat.runner import Renamed
+    from rules.c08 import check_p1
+    check_p1(Renamed(ctx, {'P1': 'Q10'}, key_filter=lambda k: True))
     check_q2(ctx)
     check_q3(ctx)
     check_q4(ctx)
